@@ -563,3 +563,35 @@ func evalFlagCond(e ast.Expr, flags map[string]bool) (bool, bool) {
 	}
 	return false, false
 }
+
+// normalisedFuncs returns, per top-level function of a pure-Go partial, its token
+// spelling sequence with engine-specific context names/types replaced by placeholders.
+func normalisedFuncs(gp *goPartial) map[string][]string {
+	ctxNames := map[string]bool{"ginCtx": true, "echoCtx": true, "fiberCtx": true, "req": true}
+	out := map[string][]string{}
+	for _, d := range gp.File.Decls {
+		fd, ok := d.(*ast.FuncDecl)
+		if !ok || fd.Body == nil {
+			continue
+		}
+		start := gp.Fset.Position(fd.Pos()).Offset
+		end := gp.Fset.Position(fd.End()).Offset
+		src := gp.Src[start:end]
+		var toks []string
+		ts := goToks(src)
+		for i := 0; i < len(ts); i++ {
+			s := ts[i].String()
+			if ctxNames[s] {
+				s = "CTX"
+			}
+			toks = append(toks, s)
+		}
+		// normalise the context parameter's type spelling
+		joined := strings.Join(toks, " ")
+		for _, t := range []string{"* gin . Context", "echo . Context", "* fiber . Ctx", "* http . Request"} {
+			joined = strings.ReplaceAll(joined, t, "CTXT")
+		}
+		out[fd.Name.Name] = strings.Split(joined, " ")
+	}
+	return out
+}
